@@ -85,7 +85,10 @@ class BuiltinsMixin:
             elif isinstance(one, SExcClass):
                 names.add("exc:" + one.name)
             elif isinstance(one, SObj) and one.is_class:
-                names.add("cls:" + one.name)
+                ref = one
+                while ref is not None and ref.cls is None:
+                    ref = ref.parent
+                names.add("cls:" + (ref.cls.name if ref is not None else one.name))
             else:
                 raise Unsupported(f"isinstance against {one!r}")
 
@@ -99,9 +102,13 @@ class BuiltinsMixin:
                 return True
             if isinstance(x, SExc):
                 return any(n.startswith("exc:") and x.cls.issub(n[4:]) for n in names)
-            if isinstance(x, SObj) and not x.is_class and x.cls is not None:
-                mro = [c.name for c in x.cls.mro()]
-                return any(n.startswith("cls:") and n[4:] in mro for n in names)
+            if isinstance(x, SObj) and not x.is_class:
+                ref = x
+                while ref is not None and ref.cls is None:
+                    ref = ref.parent
+                if ref is not None:
+                    mro = [c.name for c in ref.cls.mro()]
+                    return any(n.startswith("cls:") and n[4:] in mro for n in names)
             if tn in ("unknown", "object", "function"):
                 if any(n in ("int", "str", "bytes", "float", "bool", "tuple", "list", "dict") for n in names) and tn != "unknown":
                     return False
@@ -378,6 +385,12 @@ class BuiltinsMixin:
                 raise RaiseSig(SExc(exc_class("ValueError")), self.lineno)
         if isinstance(v, SStr) and base == 10:
             return self.str_to_int(v)
+        if isinstance(v, SStr) and isinstance(base, int):
+            # other bases: over-approximated as 'any integer, or ValueError'
+            ok = z3.Bool(self.run.fresh(f"int_base{base}.ok"))
+            if self.spec or self.run.branch(ok):
+                return SInt(z3.Int(self.run.fresh(f"int_base{base}")))
+            raise RaiseSig(SExc(exc_class("ValueError")), self.lineno)
         if v is None or isinstance(v, (tuple, SList, SDict, SObj)):
             raise RaiseSig(SExc(exc_class("TypeError")), self.lineno)
         raise Unsupported(f"int() of {v!r} base {base}")
@@ -680,7 +693,9 @@ class BuiltinsMixin:
                 raise RaiseSig(SExc(exc_class("TypeError")), self.lineno)
             if isinstance(val, SInt) and isinstance(width, int) and width >= 1:
                 if not self.spec and self.run.branch(val.e < 0):
-                    raise Unsupported("zero padded negative number")
+                    # '%0*d' of a negative number: sign, then zeros up to the width, then the digits
+                    body = self.dec_to_str(SDec(-val.e, max(width - 1, 1)))
+                    return SStr(z3.Concat(z3.StringVal("-"), body), "str")
                 return SDec(val.e, width)
         out = []
         ai = 0
@@ -792,6 +807,8 @@ class BuiltinsMixin:
             return self.wrap_bool(z3.Or(*parts)) if parts else False
         if isinstance(s, (str, bytes)) and isinstance(prefix, (str, bytes)):
             return s.startswith(prefix)
+        if not isinstance(prefix, (str, bytes, SStr)):
+            raise RaiseSig(SExc(exc_class("TypeError")), self.lineno)
         if self.kind_of(s) != self.kind_of(prefix):
             raise RaiseSig(SExc(exc_class("TypeError")), self.lineno)
         return self.wrap_bool(z3.PrefixOf(self.to_z3(prefix), self.to_z3(s)))
@@ -883,6 +900,13 @@ class BuiltinsMixin:
             return s.find(sub)
         return self.wrap_int(z3.IndexOf(self.to_z3(s), self.to_z3(sub), z3.IntVal(0)))
 
+    def m_text_rfind(self, s, sub, *rest):
+        if rest:
+            raise Unsupported("rfind with offsets")
+        if isinstance(s, (str, bytes)) and isinstance(sub, (str, bytes)):
+            return s.rfind(sub)
+        return self.wrap_int(z3.LastIndexOf(self.to_z3(s), self.to_z3(sub)))
+
     def m_text_index(self, s, sub, *rest):
         r = self.m_text_find(s, sub, *rest)
         if isinstance(r, int):
@@ -950,7 +974,9 @@ class BuiltinsMixin:
             conds[-1] = others
         k = self.run.fork(conds, label="split parts")
         if k >= len(shapes):
-            raise Unsupported(f"split into more than {limit} parts")
+            # more parts than the limit: represented by limit+1 unconstrained parts (assumption, stated in the
+            # evidence: code under contract compares len(parts) only with constants <= limit)
+            return SList([SStr(z3.String(f"{base}.many.{j}"), kind) for j in range(limit + 1)])
         return SList([SStr(p, kind) for p in shapes[k]])
 
     def m_text_rsplit(self, s, sep=None, maxsplit=-1):
